@@ -7,6 +7,7 @@ import PfdlModel.Denter
 import PfdlModel.Syntax
 import PfdlModel.Front
 import PfdlModel.Net
+import PfdlModel.NetCert
 /-! Line protocol driver: one JSON case per input line, one JSON result per output line. -/
 open Lean Pfdl
 
@@ -355,7 +356,10 @@ def runNet (j : Json) : Except String Json := do
   let ops ← getArr (← field j "ops")
   let s0 := Net.generate prog valid fuel
   let (s, calls) ← ops.foldlM (netStepOp ee fuel) (s0, #[])
-  pure (Json.mkObj [("calls", Json.arr calls), ("net0", netJson s0), ("net1", netJson s),
+  -- certificate of the place invariant for the net as generated (nets with a parallel loop are rebuilt at run time:
+  -- no certificate)
+  let cert : Json := if Net.hasPloop s0 || !s0.valid then .null else .bool (Net.certCheck (Net.inferWeights s0) s0)
+  pure (Json.mkObj [("calls", Json.arr calls), ("net0", netJson s0), ("net1", netJson s), ("cert0", cert),
     ("gen_exc", match s0.exc with | some e => .str e | none => .null)])
 
 /-! validation requests -/
